@@ -17,7 +17,7 @@ SHARD = 80
 RULE = ("a case is (composite type, header flag, byte string): random bytes, every prefix of valid representations, single-bit flips, "
         "valid representation + junk, + zeros, bytes overwritten with 0xFF / capacity+1 / variant count, length prefix / tag / header "
         "forced just above the limit, invalid UTF-8; observed: decoded value (type-directed positional form) or coarse exception class; "
-        "implementation-alone predicates: only SerDesError/ValueError, decode->encode->decode fixed point, appending zero bytes does not "
+        "implementation-alone predicates: only SerDesError/ValueError, decode->encode->decode fixed point, decoding the same bytes again after mutating the first result in place gives the same value, appending zero bytes does not "
         "change a successful result, junk after a valid representation is ignored; non-trivial = the byte string is non-empty and the type "
         "has an array, union or delimited part; distinct = by hash of the canonical case")
 THEOREMS_NOTE = ("C07_reader_zero_extends (both read paths), C07_truncation / C07_truncation_ser, C07_zero_ext / C07_zero_ext_conv, C07_confinement, "
@@ -229,6 +229,19 @@ def run_impl(cases):
                 except Exception as ex:  # pylint: disable=broad-except
                     fails.append("appending %d zero bytes makes deserialize raise %s" % (k, type(ex).__name__))
                     break
+        # the application mutates the object it received (in place, deeply); decoding the same bytes again with the same type
+        # object must give the original value (no state shared between results and the codec)
+        if o is not None:
+            try:
+                import copy
+                snap = copy.deepcopy(o)
+                S.mutate_in_place(_random.Random(len(data) * 7919 + 17), t, o)
+                o3 = p.deserialize(schema, data, with_delimiter_header=hdr)
+                if not S.py_equal(snap, o3):
+                    fails.append("decoding the same bytes again after the first result was mutated in place gives a different value")
+                o = snap
+            except Exception as ex:  # pylint: disable=broad-except
+                fails.append("second decoding of the same bytes raised %s" % type(ex).__name__)
         # implicit truncation: junk after a complete representation is ignored
         if bs is not None and rec[0] in ("valid", "junk", "zeros"):
             try:
